@@ -59,7 +59,10 @@ static int rd_close(void *ck) {
 void set_read_script(const ReadScript &s) { g_script = s; g_rstats = ReadStats(); }
 ReadStats read_stats() { return g_rstats; }
 
-struct WriteStream { write_cb cb; void *ud; };
+struct WriteStream { write_cb cb; void *ud; bool is_log_path; };
+static write_cb g_log_cb = nullptr;
+static void *g_log_ud = nullptr;
+static int g_log_opens = 0, g_log_closes = 0, g_log_fopen_errno = 0;
 static int g_wfail_n = 0, g_wfail_errno = 0, g_wfailures = 0;
 static size_t g_wfail_accept = 0;
 static bool g_fail_pending = false;
@@ -84,17 +87,21 @@ static ssize_t wr(void *ck, const char *buf, size_t size) {
     w->cb(buf, size, w->ud);
     return (ssize_t)size;
 }
-static int wr_close(void *ck) { delete (WriteStream *)ck; return 0; }
+static int wr_close(void *ck) { if (((WriteStream *)ck)->is_log_path) g_log_closes++; delete (WriteStream *)ck; return 0; }
 FILE *open_write_stream(write_cb cb, void *ud) {
-    WriteStream *w = new WriteStream{cb, ud};
+    WriteStream *w = new WriteStream{cb, ud, false};
     cookie_io_functions_t io = {nullptr, wr, nullptr, wr_close};
     FILE *f = fopencookie(w, "w", io);
     if (f) setvbuf(f, nullptr, _IONBF, 0);
     return f;
 }
+void set_log_path_sink(write_cb cb, void *ud) { g_log_cb = cb; g_log_ud = ud; }
+int log_path_opens() { return g_log_opens; }
+int log_path_closes() { return g_log_closes; }
+void set_log_path_fopen_errno(int e) { g_log_fopen_errno = e; }
 void write_stream_fail(int nth, int e, size_t accept) { g_wfail_n = nth; g_wfail_errno = e; g_wfail_accept = accept; }
 int write_stream_failures() { return g_wfailures; }
-void reset() { g_wfail_n = 0; g_wfailures = 0; g_fail_pending = false; g_script = ReadScript(); g_rstats = ReadStats(); }
+void reset() { g_wfail_n = 0; g_wfailures = 0; g_fail_pending = false; g_log_cb = nullptr; g_log_ud = nullptr; g_log_opens = g_log_closes = 0; g_log_fopen_errno = 0; g_script = ReadScript(); g_rstats = ReadStats(); }
 
 } // namespace simfile
 
@@ -114,6 +121,16 @@ FILE *__wrap_fopen(const char *path, const char *mode) {
         FILE *f = fopencookie(c, "r", io);
         if (f && g_script.unbuffered) setvbuf(f, nullptr, _IONBF, 0);
         g_read_fp = f;
+        return f;
+    }
+    if (path && !strcmp(path, kLogPath) && sim::active() && g_log_cb) {
+        sim::yield(sim::PK_HARNESS, nullptr, 13);
+        if (g_log_fopen_errno) { sim::fault_fired("fopen_error"); errno = g_log_fopen_errno; return nullptr; }
+        g_log_opens++;
+        WriteStream *w = new WriteStream{g_log_cb, g_log_ud, true};
+        cookie_io_functions_t io = {nullptr, wr, nullptr, wr_close};
+        FILE *f = fopencookie(w, "w", io);
+        if (f) setvbuf(f, nullptr, _IONBF, 0);
         return f;
     }
     return __real_fopen(path, mode);
